@@ -13,7 +13,7 @@ def FitsSweep : St → List Nat → Prop
 
 /-- `Fits` in every state one operation passes through -/
 def FitsOp (s : St) (op : Op) : Prop :=
-  FitsSweep s (List.range nCalls) ∧ ∀ prog, compile s op = some prog → FitsAlong s prog
+  FitsSweep s (sweepOrder s) ∧ ∀ prog, compile s op = some prog → FitsAlong s prog
 
 /-- `Fits` in every state of a history -/
 def FitsRun : St → List Op → Prop
